@@ -55,7 +55,7 @@ Print Assumptions C06_update_open_error.
 Theorem C06_walk_hides_no_error : forall (L : hashlib) decompress pgp w l path pol lm l' b log,
   assert_directory_verifies L decompress pgp w l path pol lm = Ok (l', b, log) ->
   exists ed, get_file_entry_dict L decompress pgp w l path None true = Ok (l', ed) /\
-    (forall dp rel, reach w ed (pjoin rootdir path) path dp rel ->
+    (forall dp rel, reach w ed (walk_top path) path dp rel ->
        (exists ents st, p_scandir w dp = Ok ents /\ p_stat w dp = Ok st /\ (forall d, l_dev l' = Some d -> st_dev st = d)) /\
        forall ents f, p_scandir w dp = Ok ents -> In f (map fst (filter (fun x => negb (snd x)) ents)) ->
          visible (l_top l') rel f = true -> exists eo ok diff, verify_path L w (pjoin dp f) eo (l_dev l') lm = Ok (ok, diff)) /\
@@ -75,7 +75,7 @@ Print Assumptions C06_walk_hides_no_error.
    "exists, not opened") makes the verification end with an error - it does not return, neither True nor False *)
 Theorem C06_unreadable_found_file_fails_the_walk : forall (L : hashlib) decompress pgp w l path pol lm ed l1 dp rel ents f en,
   get_file_entry_dict L decompress pgp w l path None true = Ok (l1, ed) ->
-  reach w ed (pjoin rootdir path) path dp rel -> p_scandir w dp = Ok ents ->
+  reach w ed (walk_top path) path dp rel -> p_scandir w dp = Ok ents ->
   In f (map fst (filter (fun x => negb (snd x)) ents)) -> visible (l_top l1) rel f = true ->
   p_open w (pjoin dp f) = Err (XOS en) -> hard_errno en ->
   (forall dd e, In (rel, dd) ed -> In (f, e) dd -> (forall d, e <> ETs d) /\ (forall p, e <> EIgn p)) ->
@@ -105,9 +105,9 @@ Example C06_walk_example :
   exists l0 l1 ed ents,
     new_loader (table_hashlib []) c06_dec c06_pgp c06_w [77;97;110;105;102;101;115;116] (mk_opts None false None [] PDefault None None false) false true = Ok l0 /\
     get_file_entry_dict (table_hashlib []) c06_dec c06_pgp c06_w l0 [] None true = Ok (l1, ed) /\
-    reach c06_w ed (pjoin rootdir []) [] (pjoin rootdir []) [] /\ p_scandir c06_w (pjoin rootdir []) = Ok ents /\
+    reach c06_w ed (walk_top []) [] (walk_top []) [] /\ p_scandir c06_w (walk_top []) = Ok ents /\
     In [98] (map fst (filter (fun x => negb (snd x)) ents)) /\ visible (l_top l1) [] [98] = true /\
-    p_open c06_w (pjoin (pjoin rootdir []) [98]) = Err (XOS EACCES) /\ hard_errno EACCES /\
+    p_open c06_w (pjoin (walk_top []) [98]) = Err (XOS EACCES) /\ hard_errno EACCES /\
     assert_directory_verifies (table_hashlib []) c06_dec c06_pgp c06_w l0 [] PolFalse None = Err (XOS EACCES).
 Proof.
   do 4 eexists. split; [vm_compute; reflexivity|]. split; [vm_compute; reflexivity|]. split; [apply reach_here|].
